@@ -40,7 +40,7 @@ def run_failing(scen: dict, sched: list[dict], storage, entry: str, fail: dict) 
     pdesc = pmap.tla_desc_to_py(scen["desc"])
     for fd in pdesc["funcs"]:
         if fd["name"] == fail["f"]:
-            fd["fail"] = {"when": fail["n"], "cls": fail["cls"], "args": fail["args"]}
+            fd["fail"] = {"when": fail["n"], "cls": fail["cls"], "args": fail["args"], "prenote": fail.get("prenote", False)}
     build.reset_log()
     tmp = tempfile.mkdtemp(prefix="pfverif_c13_")
     script = exec_ctl.Script(sched)
@@ -154,7 +154,7 @@ def run_pool_fail(scen: dict, storage, pool_kind: str, fail: dict, seed: int, pe
     pdesc = pmap.tla_desc_to_py(scen["desc"])
     for fd in pdesc["funcs"]:
         if fd["name"] == fail["f"]:
-            fd["fail"] = {"when": fail["when"], "cls": fail["cls"], "args": fail["args"]}
+            fd["fail"] = {"when": fail["when"], "cls": fail["cls"], "args": fail["args"], "prenote": fail.get("prenote", False)}
     tmp = tempfile.mkdtemp(prefix="pfverif_c13p_")
     logf = tmp + "_calls.ndjson"
     build.reset_log(logf)
@@ -270,7 +270,7 @@ def run(ctx: Ctx) -> None:
         rng.shuffle(scheds)
         for j, s in enumerate(scheds[:budget]):
             cls, args = EXC_KINDS[(j + k) % len(EXC_KINDS)]
-            fl = {"f": ff, "n": fn, "cls": cls, "args": args}
+            fl = {"f": ff, "n": fn, "cls": cls, "args": args, "prenote": j % 2 == 1}
             st = c03.STORAGES[j % 3]
             en = ["map", "async", "map"][j % 3]
             traces.append(run_failing(scen, s, st, en, fl))
@@ -279,7 +279,7 @@ def run(ctx: Ctx) -> None:
             ctx.case({"s": s, "st": st, "en": en, "fl": fl}, nontrivial=done_before)
         # sequential run of the same failure
         cls, args = EXC_KINDS[k % len(EXC_KINDS)]
-        fl = {"f": ff, "n": fn, "cls": cls, "args": args}
+        fl = {"f": ff, "n": fn, "cls": cls, "args": args, "prenote": k % 2 == 0}
         traces.append(run_failing(scen, [], c03.STORAGES[k % 2], "seq", fl))
         fails.append(fl)
         ctx.case({"seq": scenario, "fl": fl})
@@ -295,7 +295,7 @@ def run(ctx: Ctx) -> None:
         sc = scens[names[k % len(names)]]
         fname = sc["desc"]["funcs"][0]["name"]
         cls, args = EXC_KINDS[k % len(EXC_KINDS)]
-        fl = {"f": fname, "when": 0 if False else "*", "cls": cls, "args": args}
+        fl = {"f": fname, "when": 0 if False else "*", "cls": cls, "args": args, "prenote": k % 2 == 1}
         # fail on the first element's kwargs only: take them from a dry description (harness-side helper)
         kind = "thread" if k % 2 == 0 else "process"
         st = c03.STORAGES[k % 3] if kind == "thread" else ["file_array", "shared_memory_dict"][k % 2]
